@@ -17,22 +17,24 @@ RefLog == ndJsonDeserialize(IOEnv.REF)
 Cfg == TraceLog[1]
 
 NLpC == Cfg.nlps
-NThreadsC == IF Cfg.threads > Cfg.nlps THEN Cfg.nlps ELSE Cfg.threads
+\* the worker threads that appear in the trace (rank * 8 + thread in multi-rank runs)
+ThreadsC == {TraceLog[i].thr : i \in 1..Len(TraceLog)} \ {-1}
+MultiRank == Cfg.ranks > 1
 InfC == 1073741824
 TermTime == Cfg.term
 
 VARIABLES msg, hist, base, ckpt, owner, rb, cpos, cheld, termT, gvtSeen, gvtCnt, gvtVals, finiLp, finiQ, votes,
-          stopped, exited, hand, voted, maxDecl, mustVote, announced,
+          stopped, exited, hand, voted, maxDecl, mustVote, announced, net, rx, lastNm, early,
           l,       \* next trace line
           bad,     \* failed checks of the step that failed first
           expect   \* thr -> message that the thread must re-insert next (0: none)
 
-TW == INSTANCE TimeWarp WITH NThreads <- NThreadsC, NLp <- NLpC, Inf <- InfC
+TW == INSTANCE TimeWarp WITH Threads <- ThreadsC, NLp <- NLpC, Inf <- InfC
 
 twvars == <<msg, hist, base, ckpt, owner, rb, cpos, cheld, termT, gvtSeen, gvtCnt, gvtVals, finiLp, finiQ, votes,
-            stopped, exited, hand, voted, maxDecl, mustVote, announced>>
+            stopped, exited, hand, voted, maxDecl, mustVote, announced, net, rx, lastNm, early>>
 tvars == <<msg, hist, base, ckpt, owner, rb, cpos, cheld, termT, gvtSeen, gvtCnt, gvtVals, finiLp, finiQ, votes,
-           stopped, exited, hand, voted, maxDecl, mustVote, announced, l, bad, expect>>
+           stopped, exited, hand, voted, maxDecl, mustVote, announced, net, rx, lastNm, early, l, bad, expect>>
 
 \* sequential delivery history of every LP (LP_INIT excluded)
 Ref == [p \in TW!LpSet |-> SelectSeq(RefLog, LAMBDA x : x.e = "Disp" /\ x.lp = p /\ x.ty # 65534)]
@@ -51,12 +53,12 @@ Step(cs, A) ==
 Known(m) == <<m > 0, "DIV", "line refers to a buffer the harness never saw allocated">>
 Ghost == [s |-> Line.s, cnt |-> Line.cnt, a |-> Line.dgA, b |-> Line.dgB, blk |-> Line.blk]
 
-TInit == TW!Init /\ l = 1 /\ bad = <<>> /\ expect = [r \in TW!Threads |-> 0] /\ TLCSet(1, 0) /\ TLCSet(2, <<>>)
+TInit == TW!Init /\ l = 1 /\ bad = <<>> /\ expect = [r \in ThreadsC |-> 0] /\ TLCSet(1, 0) /\ TLCSet(2, <<>>)
 
 TConfig == IsEvent("Config") /\ UNCHANGED <<twvars, bad, expect>>
 
 Skippable == {"BarArrive", "BarLeave", "GvtStart", "GvtInitiate", "TPhase", "NPhase", "DrainStage", "ModelFini",
-              "NoSuchEvent"}
+              "CollPost", "CollDone"}
 TSkip == l <= Len(TraceLog) /\ bad = <<>> /\ Line.e \in Skippable /\ l' = l + 1 /\ UNCHANGED <<twvars, bad, expect>>
 
 TAlloc == IsEvent("Alloc") /\ Step(<<Known(Line.m)>> \o TW!AllocChecks(R, Line.m), TW!Alloc(R, Line.m)) /\ UNCHANGED expect
@@ -77,7 +79,23 @@ TPush ==
 
 NoExpect == <<expect[R] = 0, "C06", "a message that had to be re-inserted into a queue was dropped">>
 
-TSend == IsEvent("Send") /\ Step(<<Known(Line.m), NoExpect>> \o TW!SendChecks(R, Line.lp, Line.m), TW!Send(R, Line.lp, Line.m)) /\ UNCHANGED expect
+TSend ==
+  /\ IsEvent("Send")
+  /\ IF Line.rem = 1
+     THEN Step(<<Known(Line.m), NoExpect>> \o TW!SendRemoteChecks(R, Line.lp, Line.m, Content), TW!SendRemote(R, Line.lp, Line.m, Content))
+     ELSE Step(<<Known(Line.m), NoExpect>> \o TW!SendChecks(R, Line.lp, Line.m), TW!Send(R, Line.lp, Line.m))
+  /\ UNCHANGED expect
+NetRec == [kind |-> Line.kind, t |-> Line.t, id |-> Line.id, sq |-> Line.sq, src |-> R, nm |-> Line.nm]
+TNetSend == IsEvent("NetSend") /\ Step(TW!NetSendChecks(R, Line.nm, NetRec), TW!NetSend(R, Line.nm, NetRec)) /\ UNCHANGED expect
+TNetRecv == IsEvent("NetRecv") /\ Step(TW!NetRecvChecks(R, Line.nm), TW!NetRecv(R, Line.nm)) /\ UNCHANGED expect
+TAntiRemote == IsEvent("AntiRemote") /\ Step(<<Known(Line.m), NoExpect>> \o TW!AntiRemoteChecks(R, Line.m), TW!AntiRemote(R, Line.m)) /\ UNCHANGED expect
+TFreeAtGvt == IsEvent("FreeAtGvt") /\ Step(TW!FreeAtGvtChecks(R, Line.m), TW!FreeAtGvt(R, Line.m)) /\ UNCHANGED expect
+TEarlyStore == IsEvent("EarlyStore") /\ Step(<<Known(Line.am)>> \o TW!EarlyStoreChecks(R, Line.lp, Line.am), TW!EarlyStore(R, Line.lp, Line.am)) /\ UNCHANGED expect
+TEarlyMatch == IsEvent("EarlyMatch") /\ Step(<<Known(Line.m), Known(Line.am)>> \o TW!EarlyMatchChecks(R, Line.lp, Line.m, Line.am), TW!EarlyMatch(R, Line.lp, Line.m, Line.am)) /\ UNCHANGED expect
+TRAntiMatch ==
+  /\ IsEvent("RAntiMatch")
+  /\ Step(<<Known(Line.m), Known(Line.am)>> \o TW!RAntiMatchChecks(R, Line.lp, Line.m, Line.am, Line.past), TW!RAntiMatch(R, Line.lp, Line.m, Line.am, Line.past))
+  /\ UNCHANGED expect
 TDrain == IsEvent("Drain") /\ Step(TW!DrainChecks(R, Line.k), TW!Drain(R, Line.k)) /\ UNCHANGED expect
 TExtract == IsEvent("Extract") /\ Step(<<Known(Line.m), NoExpect, TW!NoPendingVote(R)>> \o TW!ExtractChecks(R, Line.m), TW!Extract(R, Line.m)) /\ UNCHANGED expect
 
@@ -148,7 +166,7 @@ TFossil ==
 TFree == IsEvent("Free") /\ Step(<<Known(Line.m)>> \o TW!FreeChecks(R, Line.m), TW!Free(R, Line.m)) /\ UNCHANGED expect
 
 TTermCtrl == IsEvent("TermCtrl") /\ Step(<<>>, TW!TermCtrl) /\ UNCHANGED expect
-TGvt == IsEvent("Gvt") /\ Step(<<TW!NoPendingVote(R), TW!Announced>> \o TW!GvtChecks(R, Line.val), TW!Gvt(R, Line.val)) /\ UNCHANGED expect
+TGvt == IsEvent("Gvt") /\ Step(<<TW!NoPendingVote(R)>> \o (IF MultiRank THEN <<>> ELSE <<TW!Announced(R)>>) \o TW!GvtChecks(R, Line.val), TW!Gvt(R, Line.val)) /\ UNCHANGED expect
 
 TTermLp ==
   /\ IsEvent("TermLp")
@@ -182,7 +200,9 @@ TEnd ==
   /\ bad' = Report(<< <<\A p \in TW!LpSet : finiLp[p], "C08", "run returned without LP_FINI for every LP">>,
                      <<Line.ret = 0, "C08", "RootsimRun returned an error">>,
                      <<Line.bad = 0, "C12", "allocator/library contract violated inside the model">>,
-                     <<\A m \in DOMAIN msg : ~TW!HasAnti(msg[m].flags), "C06", "a cancelled message was never released">> >>)
+                     <<\A m \in DOMAIN msg : (msg[m].nm = 0 /\ ~msg[m].rem) => ~TW!HasAnti(msg[m].flags), "C06", "a cancelled message was never released">>,
+                     <<(TW!LastGvt = InfC /\ ~stopped) => \A p \in TW!LpSet : early[p] = {}, "C06", "an early remote anti-message was never matched with the event it cancels">>,
+                     <<(TW!LastGvt = InfC /\ ~stopped) => \A x \in DOMAIN net : net[x].kind = "ctrl", "C06", "an event or anti-message sent to another rank was never received">> >>)
   /\ UNCHANGED <<twvars, expect>>
 
 THang ==
@@ -197,7 +217,7 @@ TCrash ==
 TNext ==
   \/ TConfig \/ TSkip \/ TAlloc \/ TLpInit \/ TPush \/ TSend \/ TDrain \/ TExtract \/ TFlag \/ TRbBegin \/ TAntiLocal
   \/ TUndo \/ TRestore \/ TRbEnd \/ TExec \/ TCkpt \/ TFossil \/ TFree \/ TGvt \/ TTermLp \/ TTermUndo \/ TVote \/ TStop
-  \/ TLoopExit \/ TTermCtrl \/ TFiniStage \/ TLpFini \/ TEnd \/ THang \/ TCrash
+  \/ TLoopExit \/ TTermCtrl \/ TNetSend \/ TNetRecv \/ TAntiRemote \/ TFreeAtGvt \/ TEarlyStore \/ TEarlyMatch \/ TRAntiMatch \/ TFiniStage \/ TLpFini \/ TEnd \/ THang \/ TCrash
 TSpec == TInit /\ [][TNext]_tvars
 
 Progress == TLCSet(1, IF l > TLCGet(1) THEN l ELSE TLCGet(1)) /\ (bad # <<>> => TLCSet(2, bad))
